@@ -9,6 +9,7 @@ import (
 	"os"
 	"path/filepath"
 	"sort"
+	"strings"
 	"sync"
 	"sync/atomic"
 	"time"
@@ -416,6 +417,49 @@ func vfC17Schedule(env *vfc.Env, id string, r *ref.Rand, kind string) {
 		go request("r2") // issued while a pass is registered and running
 		collect(1)
 		t.Release()
+	case "pass-running-many-requests":
+		// while one pass is parked at its first file, several further requests of different
+		// shapes arrive one after the other: each one must be refused, none may start a pass,
+		// and the bucket must be reported as collecting all the time
+		t := sched.AddTrap("pass", "bg", "gc.fileBegin", 1)
+		go request("r1")
+		if !t.WaitParked(vfWatchdog) {
+			res.Inconc("the pass never reached its first file")
+			sched.ReleaseAll()
+			return
+		}
+		collect(1)
+		sched.SetRole("main")
+		k := r.Range(2, 5)
+		for i := 0; i < k; i++ {
+			var e error
+			switch r.Intn(4) {
+			case 0:
+				_, _, e = sut.hs.GC(0, 0, -1, 0, false, true) // pretend
+			case 1:
+				_, _, e = sut.hs.GC(0, 99, 100, 0, true, false) // a range that does not exist
+			case 2:
+				_, _, e = sut.hs.GC(0, 0, 0, 0, r.Bool(), false)
+			default:
+				_, _, e = sut.hs.GC(0, 0, -1, 0, false, false)
+			}
+			if e == nil {
+				accepted++
+			} else {
+				refused++
+			}
+			if !sut.hs.IsGCRunning() {
+				res.Violate(id, "c17:running-pass-not-reported:"+kind, fmt.Sprintf("after request %d of %d issued while a pass is parked at its first file, the store no longer reports a running GC", i+2, k+1), info)
+				break
+			}
+		}
+		t.Release()
+	case "concurrent-many":
+		k := r.Range(3, 6)
+		for i := 0; i < k; i++ {
+			go request(fmt.Sprintf("r%d", i+1))
+		}
+		collect(k)
 	}
 	sched.ReleaseAll()
 	// wait until every spawned pass is over
@@ -428,8 +472,10 @@ func vfC17Schedule(env *vfc.Env, id string, r *ref.Rand, kind string) {
 	res.Eval(1)
 	if m := atomic.LoadInt32(&maxInside); m > 1 {
 		res.Violate(id, "c17:two-passes-at-once:"+kind, fmt.Sprintf("%d GC passes were inside gc.enter/gc.exit for the same bucket at the same time (%d requests accepted, %d refused, %d passes started)", m, accepted, refused, atomic.LoadInt32(&passes)), info)
-	} else if accepted > 1 && kind != "back-to-back" || kind == "back-to-back" && accepted > 1 && atomic.LoadInt32(&passes) > 1 && false {
-		res.Violate(id, "c17:second-request-accepted:"+kind, fmt.Sprintf("a second GC request for the bucket was accepted while one was registered or about to run (%d accepted, %d passes)", accepted, atomic.LoadInt32(&passes)), info)
+	} else if accepted > 1 && (strings.HasPrefix(kind, "first-parked") || kind == "pass-running-many-requests") {
+		// (in the unparked kinds a later request may legitimately be accepted after the first pass has finished;
+		// there only the overlap detector decides)
+		res.Violate(id, "c17:second-request-accepted:"+kind, fmt.Sprintf("a further GC request for the bucket was accepted while one was registered or about to run (%d accepted, %d refused, %d passes)", accepted, refused, atomic.LoadInt32(&passes)), info)
 	}
 	res.Seen(fmt.Sprintf("schedule/%s/accepted=%d/refused=%d", kind, accepted, refused))
 	res.Event("schedules."+kind, 1)
@@ -446,7 +492,7 @@ func vfC17(env *vfc.Env) {
 			vfC17Eligibility(env, id, rnd.Split(uint64(i)), &a)
 		}
 	}
-	kinds := []string{"back-to-back", "concurrent", "first-parked-after-check", "first-parked-at-gc-enter"}
+	kinds := []string{"back-to-back", "concurrent", "first-parked-after-check", "first-parked-at-gc-enter", "pass-running-many-requests", "concurrent-many"}
 	for i := 0; i < a.Schedules; i++ {
 		kind := kinds[i%len(kinds)]
 		id := fmt.Sprintf("s%d-%s", i, kind)
